@@ -10,7 +10,7 @@ import (
 // agent's id, {ROOT} = absolute path of the temp root. Templates are expanded when the
 // history runs, so the same history can be re-run with fresh agent ids (minimisation).
 type Op struct {
-	Kind   string `json:"kind"`          // open | write | close | shot | output | svc | svcout
+	Kind   string `json:"kind"`          // open | write | close | transfer | shot | output | svc | svcout
 	Agent  int    `json:"agent"`         // index into History.Agents (demon ops)
 	Fam    string `json:"fam,omitempty"` // fs (COMMAND_FS download) | beacon (BEACON_OUTPUT CALLBACK_FILE*)
 	FileID uint32 `json:"file_id,omitempty"`
@@ -242,8 +242,11 @@ func genHistory(rng *rand.Rand, used map[uint32]bool, nops int) History {
 			op = Op{Kind: "open", Agent: a, Fam: fam(), FileID: pick(a, false, fids[:nf]), Name: names[ni], Size: uint64(rng.Intn(1 << 20))}
 			openNow[a][op.FileID] = true
 			nameOf[a][op.FileID] = ni
-		case k < 62:
+		case k < 58:
 			op = Op{Kind: "write", Agent: a, Fam: fam(), FileID: pick(a, true, fids), Chunk: genChunk(rng)}
+		case k < 62:
+			// the agent's answer to `transfer list / stop / resume` for a (mostly open) file id
+			op = Op{Kind: "transfer", Agent: a, FileID: pick(a, true, fids), Reason: uint32(rng.Intn(3))}
 		case k < 78:
 			op = Op{Kind: "close", Agent: a, Fam: fam(), FileID: pick(a, true, fids), Reason: uint32(rng.Intn(2))}
 			delete(openNow[a], op.FileID)
